@@ -85,6 +85,7 @@ structure St where
   sp : SpPc := .wait
   workers : List WPc := []
   subs : List Sub := []
+  handler : Bool := true          -- a panic handler is installed (SetPanicHandler(nil) clears it)
   -- ghost history
   accepted : List Nat := []       -- jobs whose Offer succeeded
   rejected : List Nat := []       -- jobs whose call returned an error
@@ -93,6 +94,7 @@ structure St where
   dropped : List Nat := []        -- jobs discarded by jobQueue.Close()
   panicLog : List (Nat × Nat) := []    -- (job, value) per panic raised by a job
   handlerLog : List (Nat × Nat) := []  -- (job, value) per call of the panic handler
+  unreported : List (Nat × Nat) := []  -- (job, value) per panic recovered while no handler was installed
 deriving Repr
 
 inductive Act
@@ -113,6 +115,8 @@ inductive Act
   | gen (m : Nat)
   -- notifyWorkers() (called by the setters): posts the spawn token when workerCount < standby or jobs are queued
   | notify
+  -- SetPanicHandler(h): h ≠ nil / nil
+  | setHandler (on : Bool)
   -- workers
   | wCheck (w : Nat) | wRecv (w : Nat) | wNil (w : Nat) | wExpire (w : Nat)
   | wStart (w : Nat) | wFinish (w : Nat) | wPanic (w : Nat) (v : Nat) | wHandler (w : Nat)
@@ -244,6 +248,7 @@ def stepPool (c : Cfg) (s : St) : Act → Option St
     | _ => none
   | .gen m => some (genWorker c s m)
   | .notify => if s.count < c.standby ∨ qcount s > 0 then some { s with token := true } else some s
+  | .setHandler on => some { s with handler := on }
   | _ => none
 
 def stepW (c : Cfg) (s : St) : Act → Option St
@@ -281,7 +286,10 @@ def stepW (c : Cfg) (s : St) : Act → Option St
     | _ => none
   | .wHandler i =>
     match s.workers[i]? with
-    | some (.pan j v) => some { setW s i (.exitDec true) with handlerLog := (j, v) :: s.handlerLog }
+    | some (.pan j v) =>
+      -- recover; `if handler := panicHandler; handler != nil { handler(panic) }`
+      if s.handler then some { setW s i (.exitDec true) with handlerLog := (j, v) :: s.handlerLog }
+      else some { setW s i (.exitDec true) with unreported := (j, v) :: s.unreported }
     | _ => none
   | .wBusyDec i =>
     match s.workers[i]? with
@@ -302,7 +310,7 @@ def stepW (c : Cfg) (s : St) : Act → Option St
 def step (c : Cfg) (s : St) (a : Act) : Option St :=
   match a with
   | .submit _ | .sCheck _ | .sOffer _ _ | .sToken _ | .sLoopCheck _ | .sDeadline _ | .deadline _ => stepSub c s a
-  | .closeFlag | .closeQueue _ | .spWake | .spCheck | .spCnt1 | .spCnt2 _ | .spRead | .spGen | .spSleep | .gen _ | .notify =>
+  | .closeFlag | .closeQueue _ | .spWake | .spCheck | .spCnt1 | .spCnt2 _ | .spRead | .spGen | .spSleep | .gen _ | .notify | .setHandler _ =>
     stepPool c s a
   | _ => stepW c s a
 
